@@ -513,6 +513,10 @@ func rewriteSelect(fset *token.FileSet, tf *token.File, src []byte, ss *ast.Sele
 	return b.String(), ""
 }
 
+// stmtYieldFiles: files of cmd/whawty-auth whose functions run concurrently on shared state
+// without going through the dispatcher (the session factory and the HTTP handlers).
+var stmtYieldFiles = map[string]bool{"web_session.go": true, "web_api.go": true}
+
 // containsChanOp reports whether the expression tree (not descending into function
 // literals) contains a channel receive.
 func containsRecv(n ast.Node) bool {
@@ -593,6 +597,9 @@ func insertYields(path string, src []byte) ([]byte, []string, error) {
 		}
 		return true
 	})
+	// statement-level yields: in the files that share state between concurrently running HTTP
+	// handlers every statement boundary is a scheduling point (for goroutines the scheduler knows)
+	everyStmt := stmtYieldFiles[base]
 	// statements with channel operations
 	ast.Inspect(f, func(n ast.Node) bool {
 		var list []ast.Stmt
@@ -608,6 +615,14 @@ func insertYields(path string, src []byte) ([]byte, []string, error) {
 		}
 		for _, st := range list {
 			if commStmts[st] {
+				continue
+			}
+			if everyStmt {
+				switch st.(type) {
+				case *ast.LabeledStmt, *ast.EmptyStmt, *ast.DeclStmt, *ast.CaseClause, *ast.CommClause:
+				default:
+					addYield(st)
+				}
 				continue
 			}
 			switch s := st.(type) {
